@@ -6,12 +6,14 @@
    The test domain is -1..6 and 99 (covers every boundary of every pattern +/- 1); strings encode the same numbers as "s<n>". *)
 EXTENDS Integers, Sequences, FiniteSets, TLC
 
-Items == {"l0", "l1", "l2", "l3", "lK", "p13", "p24", "ple1", "pall"}
-IsLit(it) == it \in {"l0", "l1", "l2", "l3", "lK"}
-LitVal(it) == CASE it = "l0" -> 0 [] it = "l1" -> 1 [] it = "l2" -> 2 [] it = "l3" -> 3 [] it = "lK" -> 2
+\* "dl1" / "dp13": a default literal 55 / default pattern 50..=60 written FIRST and a literal 1 / pattern 1..=3 dedicated to the counterpart type:
+\* the dedicated one is the one that counts (C05's rule for literal / pattern)
+Items == {"l0", "l1", "l2", "l3", "lK", "p13", "p24", "ple1", "pall", "dl1", "dp13"}
+IsLit(it) == it \in {"l0", "l1", "l2", "l3", "lK", "dl1"}
+LitVal(it) == CASE it = "l0" -> 0 [] it = "l1" -> 1 [] it = "l2" -> 2 [] it = "l3" -> 3 [] it = "lK" -> 2 [] it = "dl1" -> 1
 Matches(it, prim, x) ==
   CASE IsLit(it)   -> x = LitVal(it)
-    [] it = "p13"  -> IF prim = "int" THEN x >= 1 /\ x <= 3 ELSE x \in {1, 3}
+    [] it \in {"p13", "dp13"} -> IF prim = "int" THEN x >= 1 /\ x <= 3 ELSE x \in {1, 3}
     [] it = "p24"  -> x \in {2, 4}
     [] it = "ple1" -> x <= 1
     [] it = "pall" -> TRUE
